@@ -241,6 +241,12 @@ func compareVersionPrerelease(a, b string) int {
 			if len(dx) > len(dy) {
 				return 1
 			}
+
+			if dx < dy {
+				return -1
+			}
+
+			return 1
 		case dx < dy:
 			return -1
 		default:
